@@ -10,6 +10,7 @@ CONSTANTS
   Dev_IgnoreSubtypeFlag = TRUE
   Dev_DeleteLoop = FALSE
   Emit = FALSE
+  Phase = 0
 INIT Init
 NEXT Next
 INVARIANT InvContract
